@@ -101,7 +101,7 @@ Qed.
 
 Lemma error_received_ls x s : lsame x s (fst (error_received s)).
 Proof.
-  unfold error_received. destruct (s_fut s) as [f|]; cbn [fst]; [|apply close_transport_ls].
+  unfold error_received. destruct (s_fut s) as [f|]; cbn [fst]; [|apply lsame_refl].
   destruct (pending s f).
   - eapply lsame_trans. apply complete_ls. apply close_transport_ls.
   - apply close_transport_ls.
